@@ -276,6 +276,10 @@ func touchFamily(thorough bool) [][][]ref.P {
 }
 
 func familyScopes(thorough bool) []Scope {
+	return append(handMadeFamilyScopes(thorough), cellScopes(thorough)...)
+}
+
+func handMadeFamilyScopes(thorough bool) []Scope {
 	one := [][]int{{0}}
 	return []Scope{
 		{Name: "F-neck", GS: synthGS(0, 4, [2]int64{1, 4}), Spec: lat.Spec{Explicit: neckFamily(thorough), Valid: true}, IDSets: one, Cfgs: keepCfgs},
@@ -407,6 +411,176 @@ func borderScopes(thorough bool) []Scope {
 		scs = append(scs, Scope{Name: "F-border-kite:WebMercatorQuad-z10@" + a.name,
 			GS:   GridSpec{Kind: "real", Set: "WebMercatorQuad", Deepest: z, Sub: borderSub, OffPx: a.px},
 			Spec: lat.Spec{Explicit: borderKiteFamily(thorough), Valid: true}, IDSets: [][]int{{z}}, Cfgs: keepCfgs})
+	}
+	return scs
+}
+
+// cellUnionFamily: every polygon that is the union of a subset of the cells of an nx x ny grid of
+// rectangles with the given cell borders (quarter pixels; thin columns/rows are thinner than a
+// pixel), provided the union is edge-connected and has no vertex where it touches itself only
+// diagonally (such a polygon would be invalid).  Bounded components of the complement become
+// holes.  This enumerates rectilinear shapes wholesale - necks, combs, C/U/O shapes, moats, holes
+// next to thin walls - instead of one hand-made family per shape.  Variants: collinear vertices
+// merged or every grid point on the boundary kept as a vertex; start vertices per ring as given by
+// rots (fractions of the ring length in eighths).
+func cellUnionFamily(xs, ys []int64, rots []int, keepGridPoints []bool) [][][]ref.P {
+	nx, ny := len(xs)-1, len(ys)-1
+	n := nx * ny
+	var out [][][]ref.P
+	filled := make([]bool, n)
+	at := func(i, j int) bool { return i >= 0 && j >= 0 && i < nx && j < ny && filled[j*nx+i] }
+	type vtx [2]int
+	for mask := 1; mask < 1<<uint(n); mask++ {
+		cnt := 0
+		first := -1
+		for c := 0; c < n; c++ {
+			filled[c] = mask>>uint(c)&1 == 1
+			if filled[c] {
+				cnt++
+				if first < 0 {
+					first = c
+				}
+			}
+		}
+		// edge-connected?
+		seen := make([]bool, n)
+		stack := []int{first}
+		seen[first] = true
+		reached := 0
+		for len(stack) > 0 {
+			c := stack[len(stack)-1]
+			stack = stack[:len(stack)-1]
+			reached++
+			i, j := c%nx, c/nx
+			for _, d := range [][2]int{{1, 0}, {-1, 0}, {0, 1}, {0, -1}} {
+				a, b := i+d[0], j+d[1]
+				if at(a, b) && !seen[b*nx+a] {
+					seen[b*nx+a] = true
+					stack = append(stack, b*nx+a)
+				}
+			}
+		}
+		if reached != cnt {
+			continue
+		}
+		// diagonal-only contact at a grid vertex (also of the complement: a hole touching the shell or another hole in a point)
+		pinch := false
+		for i := 0; i <= nx && !pinch; i++ {
+			for j := 0; j <= ny; j++ {
+				a, b, c, d := at(i-1, j-1), at(i, j-1), at(i-1, j), at(i, j)
+				if (a && d && !b && !c) || (b && c && !a && !d) {
+					pinch = true
+					break
+				}
+			}
+		}
+		if pinch {
+			continue
+		}
+		// directed boundary edges, interior on the left
+		next := map[vtx]vtx{}
+		for j := 0; j < ny; j++ {
+			for i := 0; i < nx; i++ {
+				if !at(i, j) {
+					continue
+				}
+				if !at(i, j-1) {
+					next[vtx{i, j}] = vtx{i + 1, j}
+				}
+				if !at(i+1, j) {
+					next[vtx{i + 1, j}] = vtx{i + 1, j + 1}
+				}
+				if !at(i, j+1) {
+					next[vtx{i + 1, j + 1}] = vtx{i, j + 1}
+				}
+				if !at(i-1, j) {
+					next[vtx{i, j + 1}] = vtx{i, j}
+				}
+			}
+		}
+		var loops [][]vtx
+		for len(next) > 0 {
+			// deterministic start: smallest (j, i)
+			var s vtx
+			have := false
+			for v := range next {
+				if !have || v[1] < s[1] || (v[1] == s[1] && v[0] < s[0]) {
+					s, have = v, true
+				}
+			}
+			var loop []vtx
+			for v := s; ; {
+				loop = append(loop, v)
+				w := next[v]
+				delete(next, v)
+				v = w
+				if v == s {
+					break
+				}
+			}
+			loops = append(loops, loop)
+		}
+		for _, keep := range keepGridPoints {
+			var shell []ref.P
+			var holes [][]ref.P
+			for _, loop := range loops {
+				var r []ref.P
+				m := len(loop)
+				for k, v := range loop {
+					p, q := loop[(k+m-1)%m], loop[(k+1)%m]
+					straight := (p[0] == v[0] && v[0] == q[0]) || (p[1] == v[1] && v[1] == q[1])
+					if straight && !keep {
+						continue
+					}
+					r = append(r, ref.P{xs[v[0]], ys[v[1]]})
+				}
+				if ref.Area2(r) > 0 {
+					shell = r
+				} else {
+					holes = append(holes, r)
+				}
+			}
+			for _, e := range rots {
+				rings := [][]ref.P{rotations(shell, []int{len(shell) * e / 8})[0]}
+				for _, h := range holes {
+					rings = append(rings, rotations(h, []int{len(h) * e / 8})[0])
+				}
+				out = append(out, rings)
+			}
+		}
+	}
+	return out
+}
+
+// cellScopes: cell-union families over layouts that differ in where the thin columns/rows sit
+// relative to the pixel grid (inside one pixel, across a pixel border) and in how wide the thick
+// cells are (wide enough to have interior more than one pixel from the boundary, for C04's
+// coverage clause, or about one pixel, for heavy collapsing).
+func cellScopes(thorough bool) []Scope {
+	rots := []int{0, 3}
+	if thorough {
+		rots = []int{0, 1, 3, 5, 6}
+	}
+	both := []bool{false, true}
+	type layout struct {
+		name   string
+		xs, ys []int64
+	}
+	ls := []layout{
+		{"wide+thin-inside-pixel", []int64{1, 10, 11, 20, 21}, []int64{1, 10, 11, 20}},
+		{"mixed", []int64{2, 7, 8, 17, 19}, []int64{1, 10, 11, 16}},
+		{"pixel-sized+thin", []int64{1, 6, 7, 12, 13}, []int64{2, 7, 8, 13}},
+		{"sub-pixel", []int64{0, 3, 5, 10, 12}, []int64{2, 5, 7, 10}},
+	}
+	if thorough {
+		ls = append(ls,
+			layout{"5x4:wide+thin-inside-pixel", []int64{1, 10, 11, 20, 21, 30}, []int64{1, 10, 11, 20, 21}},
+			layout{"5x4:pixel-sized+thin", []int64{1, 6, 7, 12, 13, 18}, []int64{2, 7, 8, 13, 14}},
+		)
+	}
+	var scs []Scope
+	for _, l := range ls {
+		scs = append(scs, Scope{Name: "F-cells:" + l.name, GS: synthGS(0, 4, [2]int64{3, 5}), Spec: lat.Spec{Explicit: cellUnionFamily(l.xs, l.ys, rots, both), Valid: true}, IDSets: [][]int{{0}}, Cfgs: keepCfgs})
 	}
 	return scs
 }
